@@ -11,7 +11,7 @@ LEVEL = "exploration"
 ENGINE = "E1"
 TECHNIQUE = "bounded exhaustive enumeration of capture-group rules x listings on the real code vs reference matcher with binding environments"
 RULE = ("families: (A) instruction-level captures: every item sequence of length 2..4 over {&a,&b,push} containing a "
-        "capture, and every sequence with two or more captures preceded by each of 14 non-capturing items (repeated mnemonic, $and/$or/$not/$and_any_order with and without times, operand-level operators, $deref) on listings that start with instructions realising that item, later occurrences also inside "
+        "capture, and every sequence with two or more captures preceded by each of 16 non-capturing items (repeated mnemonic, $and/$or/$not/$and_any_order with and without times, operand-level operators, $deref) on listings that start with instructions realising that item, later occurrences also inside "
         "$or/$not/$and-with-times; (B) operand-level captures: every pair of 'mov' items whose operand lists are drawn "
         "from {&x,&y,rax} (length 1..2), later occurrences inside operand-level $or/$not and in a following instruction; "
         "(C) prefix/extension operands (0x1/0x10, %r8/%r8d) as first, middle and last operand; (D) 11 and 25 distinct names, a register-family name as 11th name "
@@ -48,6 +48,7 @@ PREFIXES = [
     ({"$and_any_order": ["mov", "push"], "times": {"min": 1, "max": 2}}, [PUSHA, MOVAB, MOVAB, PUSHB]),
     ({"mov": ["rax"], "times": 2}, [MOVAB, MOVAB]), ({"mov": [{"$or": ["rax", "rbx"]}, {"$not": ["rcx"]}]}, [MOVAB]),
     ({"mov": [{"$and_any_order": ["rax", "rbx"]}]}, [MOVAB]), ({"mov": [{"$deref": {"main_reg": "rax"}}]}, [MOVM]),
+    ({"mov": [{"$not": ["rcx"], "times": 2}]}, [MOVAB]), ({"mov": [{"$or": ["rax", "rcx"], "times": {"min": 1, "max": 2}}]}, [MOVAB]),
 ]
 
 
@@ -193,7 +194,8 @@ def fam_f(tier):
                 [{"push": ["&genreg-1.64"]}, {"mov": [{"$deref": {"main_reg": "rax", "register_multiplier": "&genreg-1.64", "constant_multiplier": 4,
                                                                    "constant_offset": "0x8"}}]}]):
         rules.append(e1.RuleCase("F3", pat, "f", want=("verdict",)))
-    for pat in ([{"mov": [{"$deref": {"main_reg": "&r"}}]}, {"push": ["&r"]}],       # a one-field $deref defining a capture: operands with more components must not match
+    for pat in ([{"mov": [{"$deref": {"main_reg": "&r"}}]}], [{"mov": [{"$deref": {"main_reg": "&r"}}, "rbx"]}],
+                [{"mov": [{"$deref": {"main_reg": "&r"}}]}, {"push": ["&r"]}],       # a one-field $deref defining a capture: operands with more components must not match
                 [{"mov": [{"$deref": {"main_reg": "rax", "constant_offset": "&k"}}]}],
                 [{"mov": [{"$deref": {"main_reg": "&r", "constant_offset": "0x8"}}, "&r"]}],
                 [{"mov": [{"$deref": {"main_reg": "rax", "constant_offset": "&k"}}]}, {"push": ["&k"]}],
